@@ -398,3 +398,20 @@ Proof.
                 (create_top (mkmode true false true) stdin []) []) as H.
   rewrite create_top_all in H. apply H. cbn. exact L.
 Qed.
+
+(* the linear-time oracle used by Run.v is the declarative one *)
+Lemma lines_fast_spec : forall t cur, lines_fast_aux cur t = lines_aux cur t.
+Proof.
+  induction t as [|c r IH]; intros cur; cbn [lines_fast_aux lines_aux].
+  - destruct cur; [reflexivity | now rewrite <- rev_alt].
+  - destruct (c =? 10); [now rewrite <- rev_alt, IH | apply IH].
+Qed.
+
+Lemma data_outs_fast_spec : forall f d, data_outs_fast f d = data_outs f d.
+Proof. destruct f; try reflexivity. intros. cbn. unfold lines. now rewrite lines_fast_spec. Qed.
+
+Lemma all_outs_fast_spec : forall m stdin args, all_outs_fast m stdin args = all_outs m stdin args.
+Proof.
+  intros m stdin [|a r]; unfold all_outs_fast, all_outs; [apply data_outs_fast_spec|].
+  apply flat_map_ext. intros [|d]; [reflexivity | apply data_outs_fast_spec].
+Qed.
